@@ -9,7 +9,15 @@ load phase:
   pu <id> <16 float bit patterns>              -> ok    sed(veg rip gully hill wet) pn(…5) dn(veg rip gully hill wet aux)
   act <pu> <type 0..3> <19 float bit patterns> -> ok    Consts in field order
   max <sed|pn|dn|tn|ic|oc> <bits>              -> ok
-  endload                                      -> HYP InitConsistent <bool> <state dump>
+  endload                                      -> HYP ApproxConsistent <bool> <state dump>
+       the REAL content of the data hypothesis: the extracted attribute records agree with the action constants
+       to 1e-12 relative (Go derives some of them by float arithmetic that differs in the last bits from what its
+       handlers compute later); the model then runs on the NORMALISED data
+  hyp init-consistent                          -> HYP InitConsistentOfNormalisedData <bool> ok
+       the theorems' exact hypothesis, decided on the data the model runs on (holds by construction of the
+       normalisation whenever the units are well-formed; kept as a guard of that construction)
+  hyp keys-distinct                            -> HYP KeysDistinct <bool> ok
+  hyp units-ok                                 -> HYP UnitsOK <bool> ok          (hypothesis of the raw-operation theorems)
 operations (each answers with a state dump, prefixed as noted):
   propose i        -> <valid 0/1> <quoted undoable value of the bounded variable or -> C <six changes> | dump
   accept | revert | set i b | setall <bits> | init asis|random|unchanged
@@ -54,6 +62,15 @@ def dump (s : State) : String :=
     s!"{p}: {ctxStr (g s.sed) false} {ctxStr (g s.pn) false} {ctxStr (g s.dn) true}")
   s!"F {bitsStr s.flags} T {totals} U {units} A {attrs}"
 
+/-- `RoundFloat(cost, 2)` of an action's cost is a tie at float precision: `cost · 100` is within a few ulps of a
+half-integer (x.xx5 as written in the data).  Go decides it by the last bit of the float product. -/
+def costTie (a : Action) : Bool :=
+  let one (c : Rat) : Bool :=
+    let y := c * 100
+    let ay := if y < 0 then -y else y
+    nearHalf 2 c (max (1/1000000000) (ay / 10000000000000))
+  one a.k.implCost || one a.k.oppCost
+
 /-- is evaluating a toggle of action `a` in state `s` within `eps` of a rounding boundary? -/
 def boundaryRisk (s : State) (a : Action) : Bool :=
   let one (v : VarKind) (pv : PVar) : Bool :=
@@ -64,7 +81,7 @@ def boundaryRisk (s : State) (a : Action) : Bool :=
       let y2 := rawP v (setP v a.typ false a.k cell.ctx)
       let eps (y : Rat) : Rat := max (1/1000000) ((if y < 0 then -y else y) * 1000 / 1000000000000)
       nearHalf 3 y1 (eps y1) || nearHalf 3 y2 (eps y2)
-  one .sed s.sed || one .pn s.pn || one .dn s.dn
+  one .sed s.sed || one .pn s.pn || one .dn s.dn || costTie a
 
 def riskAt (st : St) (i : Nat) : Bool :=
   match st.D.acts[i]? with
@@ -113,6 +130,7 @@ def step (st : St) (line : String) : St × String :=
   let ws := words line
   match ws with
   | "dataset" :: _ => (st, "ok")      -- the dataset travels with the ops for replays; the model takes its data from the pu/act lines
+  | "cfg" :: _ => (st, "ok")          -- so do non-default model parameters
   | ["load"] => ({ loading := true }, "ok")
   | "pu" :: id :: rest =>
     match id.toInt?, parseFloats rest with
@@ -138,8 +156,10 @@ def step (st : St) (line : String) : St × String :=
     -- then runs on the normalised data, which must be exactly consistent (hypothesis of the theorems)
     let D := normalise st.D
     let s := init D
-    let hyp := approxConsistent st.D && decide (InitConsistent D) && decide (KeysDistinct D.acts)
-    ({ st with D := D, s := s, loading := false }, s!"HYP InitConsistent {hyp} {dump s}")
+    ({ st with D := D, s := s, loading := false }, s!"HYP ApproxConsistent {approxConsistent st.D} {dump s}")
+  | ["hyp", "init-consistent"] => (st, s!"HYP InitConsistentOfNormalisedData {decide (InitConsistent st.D)} ok")
+  | ["hyp", "keys-distinct"] => (st, s!"HYP KeysDistinct {decide (KeysDistinct st.D.acts)} ok")
+  | ["hyp", "units-ok"] => (st, s!"HYP UnitsOK {unitsOK st.D} ok")
   | _ =>
     if st.dead then (st, "BOUNDARY") else
     match ws with
@@ -171,11 +191,19 @@ def step (st : St) (line : String) : St × String :=
       | none => (st, "bad-op")
     | ["init", k] =>
       let kind := match k with | "random" => InitKind.random | "unchanged" => .unchanged | _ => .asIs
+      -- Initialise(Random) under a pollutant limit activates every action: cost ties cannot be decided
+      if kind == .random && !hasCostLimit st.D && hasPollutantLimit st.D && st.D.acts.any costTie then
+        ({ st with dead := true }, "BOUNDARY") else
       let s := initialise st.D kind
       ({ st with s := s }, dump s)
     | "randomize" :: ds =>
       match ds.mapM String.toNat? with
       | some draws =>
+        if draws.any (fun d => match st.D.acts[d]? with | some a => costTie a | none => false)
+            && (hasCostLimit st.D || hasPollutantLimit st.D) then ({ st with dead := true }, "BOUNDARY") else
+        if !(hasCostLimit st.D || hasPollutantLimit st.D) &&
+            (draws.zipIdx.any fun (d, i) => d == 0 && (match st.D.acts[i]? with | some a => costTie a | none => false)) then
+          ({ st with dead := true }, "BOUNDARY") else
         match randomize st.D st.s draws with
         | .found s => ({ st with s := s }, s!"found {dump s}")
         | .attemptLimit s => ({ st with s := s }, s!"attempt-limit {dump s}")
